@@ -4,9 +4,12 @@ C07 — Errors keep their identity, status and message across the wire.
 `hop := makeError ∘ MarshalError`. All theorems are for arbitrary status-prefix
 and code-prefix functions `S`, `C` (so they do not depend on `http.StatusText`
 or `unicode.ToLower`), an arbitrary status table, and an arbitrary JSON
-compaction `compact` (idempotence is the only assumption, where needed).
+compaction `compact` (idempotence is the only assumption, where needed); the
+compaction `encoding/json` applies (`compactJSON`: white space dropped, `<`, `>`, `&`,
+U+2028/9 escaped) is proved idempotent and the fixed-point theorems are restated for it.
 -/
 import OciModel.ErrCodecInst
+import OciModel.ErrCodecCompact
 
 namespace OciModel.Props.C07
 open OciModel OciModel.ErrCodec
@@ -131,6 +134,22 @@ theorem hops_succ (hc : ∀ d, compact (compact d) = compact d) (n : Nat) (e : E
 theorem hop_message_fixpoint (hc : ∀ d, compact (compact d) = compact d) (n : Nat) (e : Err) :
     msgOf (hops S C compact table stdMsg false (n + 1) e) = msgOf (hop S C compact table stdMsg false e) := by
   rw [hops_succ S C compact table stdMsg hc]
+
+/-- The compaction `json.Marshal` applies to a raw detail is idempotent (on every byte string). -/
+theorem compactJSON_idempotent (d : Bytes) : compactJSON (compactJSON d) = compactJSON d :=
+  compactAux_idem .out 0 d
+
+/-- With the real compaction: the whole error (code, status, detail, message) is fixed after the first hop. -/
+theorem hops_fixpoint_json (n : Nat) (e : Err) :
+    hops S C compactJSON table stdMsg false (n + 1) e = hop S C compactJSON table stdMsg false e :=
+  hops_succ S C compactJSON table stdMsg compactJSON_idempotent n e
+
+/-- With the real compaction: the detail after any number of hops is the compacted original. -/
+theorem hops_detail_json (n : Nat) (e : Err) :
+    detailOf (hops S C compactJSON table stdMsg false (n + 1) e) = (detailOf e).map compactJSON := by
+  rw [hops_fixpoint_json, hop_detail]
+
+example : compactJSON (strBytes "{ \"a\" : \"<\\\" >\" }") = strBytes "{\"a\":\"\\u003c\\\" \\u003e\"}" := by decide
 
 /-! ### `errors.Is` -/
 
